@@ -75,12 +75,12 @@ def c1_runs(tier):
     def add(name, consts, classes, weighted, control=False):
         runs.append({"name": name, "consts": consts, "classes": classes, "weighted": weighted, "control": control})
     add("trees2-weighted", O.tree_consts(2, W, W, {1, 2}, {1, 2}), ALL5, True)
-    add("trees3-weighted", O.tree_consts(3, W, W, {1, 2}, {1, 2}, checkdefs=True), ORD3, True)
+    add("trees3-weighted", O.tree_consts(3, W, W, {1, 2}, {1, 2}, checkdefs=True), ORD3 if tier != "quick" else ["sorted", "rotated-nodelist"], True)
     add("trees4-unit", O.tree_consts(4, {1}, {1}, {1, 2}, {1, 2}, checkdefs=True), ALL5, False)
     s4 = tree_shapes(4)
     for i, edges in enumerate(s4):
-        gams = {1} if tier == "quick" else {1, 2}
-        add("shape4.%d-weighted" % i, O.tree_consts(4, W, W, {1, 2}, gams, shape=O.shape_of_edges(4, edges)),
+        taus, gams = ({2}, {1}) if tier == "quick" else ({1, 2}, {1, 2})
+        add("shape4.%d-weighted" % i, O.tree_consts(4, W, W, taus, gams, shape=O.shape_of_edges(4, edges)),
             ["sorted"] if tier == "quick" else ORD3, True)
     for i, edges in enumerate(tree_shapes(5)):
         add("shape5.%d-unit" % i, O.tree_consts(5, {1}, {1}, {1, 2}, {1, 2}, shape=O.shape_of_edges(5, edges)),
@@ -416,7 +416,6 @@ def clause3(chk):
     for (nm, mode), s in sorted(stats.items()):
         chk.part("clause3 %s [%s]" % (nm, mode), scenarios=s["n"], failing=s["bad"], worst_passing_deviation=s["worst"])
     # -- base functions with numeric initial conditions, arguments as passed by their wrappers ----------
-    aliases = {}
     btasks = []
     keys4 = doms[1][2]
     for key in keys4[:: max(1, len(keys4) // 6)]:
@@ -424,22 +423,22 @@ def clause3(chk):
             if not nm.endswith("_from_graph"):
                 continue
             for sc in K.limit_scenarios(nm, ps, 4, tier)[::7]:
-                btasks.append({"wrapper": nm, "n": 4, "key": key, "scenario": sc, "bases": bases, "table": table, "aliases": aliases})
-    # a base function no wrapper reaches is called with the arguments recorded for a base function with the same parameter list
-    probe = K.c3_base_task(dict(btasks[0])) if btasks else None
-    reached = set()
+                btasks.append({"wrapper": nm, "n": 4, "key": key, "scenario": sc, "bases": bases, "table": table, "aliases": {}})
     bouts = pool_map(K.c3_base_task, btasks)
-    for o in bouts:
-        for row in o["rows"]:
-            reached.add(row[0])
+    reached = {row[0] for o in bouts for row in o["rows"]}
+    # a base function no wrapper reaches is called with the arguments recorded for a base function with the same parameter list
+    aliases = {}
     for b in bases:
         if b not in reached:
-            twins = [x for x in reached if table[x] == table[b]]
+            twins = sorted(x for x in reached if table[x] == table[b])
             if twins:
                 aliases.setdefault(twins[0], []).append(b)
     if aliases:
-        extra = [dict(t, aliases=aliases) for t in btasks if any(True for _ in [0])]
-        bouts = pool_map(K.c3_base_task, extra)
+        alias_names = {a for l in aliases.values() for a in l}
+        sub = [dict(t, aliases=aliases) for t, o in zip(btasks, bouts) if any(row[0] in aliases for row in o["rows"])]
+        for o in pool_map(K.c3_base_task, sub):
+            o["rows"] = [row for row in o["rows"] if row[0] in alias_names]
+            bouts.append(o)
     bstats = {}
     for o in bouts:
         for (base, wrapper, mode, dS, dI, err, i0) in o["rows"]:
@@ -463,10 +462,8 @@ def clause3(chk):
         chk.part("clause3 %s [direct call, numeric initial conditions]" % b, scenarios=s["n"], failing=s["bad"], worst_passing_deviation=s["worst"])
     uncovered = sorted(set(bases) - set(bstats))
     # entry points without graph and without wrapper
-    import networkx as nx
     for nm in list(uncovered):
         try:
-            K.nograph_calls  # noqa
             worst = 0.0
             cnt = 0
             for gname, G in sorted(K.graphs().items()):
